@@ -167,14 +167,24 @@ class Folder:
                 raise CannotFold(f"{name} with keywords")
             if name in ("frozenset", "set"):
                 return frozenset(*a)
-            if name in ("tuple", "list", "str", "int", "len", "chr", "ord", "bool", "bytes", "sorted", "min", "max"):
+            if name in ("tuple", "list", "str", "int", "len", "chr", "ord", "bool", "bytes", "sorted", "min", "max", "bytearray", "hex"):
                 try:
                     return {"tuple": tuple, "list": list, "str": str, "int": int, "len": len, "chr": chr, "ord": ord,
-                            "bool": bool, "bytes": bytes, "sorted": sorted, "min": min, "max": max}[name](*a)
+                            "bool": bool, "bytes": bytes, "sorted": sorted, "min": min, "max": max,
+                            "bytearray": lambda *x: bytes(bytearray(*x)), "hex": hex}[name](*a)
                 except Exception as e:
                     raise CannotFold(f"{name}: {e!r}")
             if name == "range":
                 return range(*a)
+            if name == "enumerate" and 1 <= len(a) <= 2:
+                return list(enumerate(*a))
+            if name == "zip":
+                return list(zip(*a))
+            if name == "dict" and len(a) <= 1:
+                try:
+                    return dict(*a)
+                except Exception as e:
+                    raise CannotFold(f"dict: {e!r}")
             raise CannotFold(f"builtin call {name}")
         if f[0] == "attr" and f[2] in _STR_METHODS:
             recv = self.fold(f[1])
@@ -313,7 +323,14 @@ def module_const(model: Model, module: str, name: str, folder: Folder | None = N
                 res = an.eval(st.value, State())
                 if len(res) != 1:
                     raise CannotFold(f"{module}.{name}: conditional initialiser")
-                vals.append(Folder(model).fold(res[0][1]))
+                val = Folder(model).fold(res[0][1])
+                idx = getattr(st, "_unpack", {}).get(name)
+                if idx is not None:
+                    try:
+                        val = val[idx]
+                    except Exception as e:
+                        raise CannotFold(f"{module}.{name}: unpacking: {e!r}")
+                vals.append(val)
             if any(v != vals[0] for v in vals[1:]):
                 raise CannotFold(f"{module}.{name} has several different module-level values")
             v = vals[0]
@@ -324,6 +341,26 @@ def module_const(model: Model, module: str, name: str, folder: Folder | None = N
         raise
     _MOD_CACHE[key] = v
     return v
+
+
+def module_value(model: Model, module: str, name: str):
+    """The value *term* of a module-level name with a single, unconditional initialiser (helpers that are not anchors are
+    analysed in place, `A, B = f()` yields the element). Raises CannotFold otherwise."""
+    r = model.resolve_global(module, name)
+    if not r or r[0] != "value" or len(r[3]) != 1 or isinstance(r[3][0], ast.AugAssign):
+        raise CannotFold(f"{module}.{name} has no single module-level initialiser")
+    st = r[3][0]
+    res = module_analyzer(model, r[1]).eval(st.value, State())
+    if len(res) != 1:
+        raise CannotFold(f"{module}.{name}: conditional initialiser")
+    t = res[0][1]
+    idx = getattr(st, "_unpack", {}).get(r[2])
+    if idx is not None:
+        if t[0] in ("tuple", "list") and not any(x[0] == "star" for x in t[1]) and idx < len(t[1]):
+            t = t[1][idx]
+        else:
+            t = ("item", t, idx)
+    return t
 
 
 def fold_expr(model: Model, module: str, expr: ast.AST, leaves=None):
